@@ -706,6 +706,9 @@ def merge(c, a, b):
             raise CannotMerge('structured strings')
         return str_merge(c, a, b)
     from . import ext as _ext
+    if isinstance(a, _ext.SCharSeq) and isinstance(b, _ext.SCharSeq):
+        return _ext.SCharSeq(z3.If(c, a.arr, b.arr), z3.If(c, T(a.off), T(b.off)),
+                             z3.If(c, T(a.n), T(b.n)))
     if isinstance(a, _ext.SByte1) and isinstance(b, _ext.SByte1):
         return _ext.SByte1(merge(c, a.nonempty, b.nonempty), merge(c, a.code, b.code))
     if isinstance(a, (_ext.SBytes, bytes)) and isinstance(b, (_ext.SBytes, bytes)):
